@@ -17,7 +17,7 @@ const (
 	kILLEGAL tok = iota
 )
 
-var eof = rune(0)
+var eof = rune(-1)
 
 // TokenPos is a pair of coordinate to identify start of token.
 type TokenPos struct {
